@@ -416,11 +416,16 @@ class FATDirectoryEntry:
         if self.__lazy_load is False:
             return
 
-        clus = self.get_cluster()
-        self.__dirs = self.__fs.parse_dir_entries_in_cluster_chain(clus)
-        for dir_entry in self.__dirs:
-            dir_entry._add_parent(self)
-        self.__lazy_load = False
+        # Two readers may be the first to look into this directory
+        with self.__fs.fs_lock:
+            if self.__lazy_load is False:
+                return
+            clus = self.get_cluster()
+            dirs = self.__fs.parse_dir_entries_in_cluster_chain(clus)
+            for dir_entry in dirs:
+                dir_entry._add_parent(self)
+            self.__dirs = dirs
+            self.__lazy_load = False
 
     def _get_entries_raw(self):
         """Get a full list of entries in current directory."""
